@@ -190,6 +190,7 @@ var numAtoms = []numAtom{
 	{"f:1e21", "num 1e21", "float"}, {"f:1e-7", "num 1e-7", "float"}, {"f:max", "num 1.7976931348623157e308", "float"},
 	{"f:denorm", "num 5e-324", "float"}, {"f:2^63", "+ 9223372036854775807 1.0", "float"}, {"f:1e15", "num 1e15", "float"},
 	{"f:123456.789", "num 123456.789", "float"},
+	{"f:2^53", "num 9007199254740992.0", "float"}, {"f:12345678901", "* 12345678901 1.0", "float"},
 }
 
 var numReal = map[string]any{} // name -> real value, built once by the real Evaler
@@ -246,6 +247,7 @@ func initAtoms(ev *eval.Evaler) error {
 				return lib.Infra("string representative %q in classes %s and %s", s, o, c)
 			}
 			seen[s] = c
+			isRep[s] = true
 		}
 	}
 	for _, na := range numAtoms {
@@ -262,14 +264,22 @@ func initAtoms(ev *eval.Evaler) error {
 			}
 		}
 		numReal[na.name] = o.Values[0]
+		poolImage[math.Float64bits(vals.ConvertToFloat64(o.Values[0]))] = true
 	}
 	return nil
 }
 
 // repSel fixes, for one case, which representative every string class stands for.
-type repSel struct{ seed int64 }
+type repSel struct {
+	seed int64
+	dstr map[string]string // dynamic string atoms "d:<n>" -> bytes
+	dnum map[string]any    // dynamic number atoms "n:<n>" -> real value
+}
 
 func (r repSel) str(class string) (string, bool) {
+	if s, ok := r.dstr[class]; ok {
+		return s, true
+	}
 	reps, ok := strReps[class]
 	if !ok {
 		return "", false
@@ -282,6 +292,11 @@ func (r repSel) str(class string) (string, bool) {
 }
 
 func (r repSel) class(s string) string {
+	for n, x := range r.dstr {
+		if x == s {
+			return n
+		}
+	}
 	for _, c := range strClasses {
 		if x, _ := r.str(c); x == s {
 			return c
@@ -317,6 +332,12 @@ func build(v AVal, hist string, rs repSel, rnd *rand.Rand) (any, error) {
 		r, ok := numReal[v.A]
 		if !ok {
 			return nil, fmt.Errorf("unknown number atom %q", v.A)
+		}
+		return r, nil
+	case "dnum":
+		r, ok := rs.dnum[v.A]
+		if !ok {
+			return nil, fmt.Errorf("unknown dynamic number %q", v.A)
 		}
 		return r, nil
 	case "list":
@@ -388,6 +409,11 @@ func project(x any, rs repSel) AVal {
 	case string:
 		return atom("str", rs.class(x))
 	case int, *big.Int, *big.Rat, float64:
+		for n, r := range rs.dnum {
+			if sameNum(r, x) {
+				return atom("dnum", n)
+			}
+		}
 		for _, na := range numAtoms {
 			if sameNum(numReal[na.name], x) {
 				return atom("num", na.name)
